@@ -440,6 +440,7 @@ pub fn run(args: &Args, out: &mut Out) {
     let mut rng = Rng::new(args.seed);
     let std = StandardLibrary::from_name("lua51").unwrap();
     let mut programs: Vec<String> = Vec::new();
+    let mut n_corpus = 0usize;
     // corpus first
     if let Ok(rd) = std::fs::read_dir("/verif/corpus/C08") {
         let mut paths: Vec<_> = rd.filter_map(|e| e.ok()).map(|e| e.path()).collect();
@@ -447,6 +448,7 @@ pub fn run(args: &Args, out: &mut Out) {
         for p in paths {
             if let Ok(s) = std::fs::read_to_string(&p) {
                 programs.push(s);
+                n_corpus += 1;
                 out.bump("corpus");
             }
         }
@@ -465,7 +467,24 @@ pub fn run(args: &Args, out: &mut Out) {
             programs.push(gen_nest_program(&mut rng, out));
         }
     }
-    for src in programs {
+    // every corpus program runs under a fixed family of configurations (generated ones under a random one each)
+    let fixed_configs: Vec<Vec<(&str, LintVariation)>> = vec![
+        vec![],
+        vec![("invalid_lint_filter", LintVariation::Allow)],
+        vec![("invalid_lint_filter", LintVariation::Warn)],
+        vec![("unused_variable", LintVariation::Allow), ("invalid_lint_filter", LintVariation::Deny), ("empty_if", LintVariation::Deny)],
+    ];
+    let mut work: Vec<(String, Option<usize>)> = Vec::new();
+    for (i, src) in programs.into_iter().enumerate() {
+        if i < n_corpus {
+            for k in 0..fixed_configs.len() {
+                work.push((src.clone(), Some(k)));
+            }
+        } else {
+            work.push((src, None));
+        }
+    }
+    for (src, fixed) in work {
         let ast = match full_moon::parse(&src) {
             Ok(a) => a,
             Err(_) => {
@@ -473,7 +492,15 @@ pub fn run(args: &Args, out: &mut Out) {
                 continue;
             }
         };
-        let (config, cfg_sx) = if rng.chance(1, 2) {
+        let (config, cfg_sx) = if let Some(k) = fixed {
+            let mut lints = HashMap::new();
+            let mut sx = Vec::new();
+            for (l, v) in &fixed_configs[k] {
+                lints.insert((*l).to_owned(), *v);
+                sx.push(list(vec![st(*l), sev_sx(v.to_severity())]));
+            }
+            (CheckerConfig { lints, ..CheckerConfig::default() }, list(sx))
+        } else if rng.chance(1, 2) {
             (CheckerConfig::default(), list(vec![]))
         } else {
             random_config(&mut rng)
@@ -611,8 +638,28 @@ pub fn run_dialects(out: &mut Out) {
 pub fn run_c10(args: &Args, out: &mut Out) {
     let mut rng = Rng::new(args.seed ^ 0xC10);
     let std = StandardLibrary::from_name("lua51").unwrap();
-    for i in 0..args.n {
-        let src = if i % 5 == 4 { gen_nest_program(&mut rng, out) } else { gen_program(&mut rng, out, [0, 2, 5][i % 3]) };
+    // the filter corpus first (under fixed assignments that include `invalid_lint_filter = allow`), then generated programs
+    let mut corpus: Vec<String> = Vec::new();
+    if let Ok(rd) = std::fs::read_dir("/verif/corpus/C08") {
+        let mut paths: Vec<_> = rd.filter_map(|e| e.ok()).map(|e| e.path()).collect();
+        paths.sort();
+        for p in paths {
+            if let Ok(s) = std::fs::read_to_string(&p) {
+                corpus.push(s);
+                out.bump("corpus");
+            }
+        }
+    }
+    let n_corpus = corpus.len();
+    for i in 0..n_corpus + args.n {
+        let is_corpus = i < n_corpus;
+        let src = if is_corpus {
+            corpus[i].clone()
+        } else if i % 5 == 4 {
+            gen_nest_program(&mut rng, out)
+        } else {
+            gen_program(&mut rng, out, [0, 2, 5][i % 3])
+        };
         let ast = match full_moon::parse(&src) {
             Ok(a) => a,
             Err(_) => continue,
@@ -638,7 +685,24 @@ pub fn run_c10(args: &Args, out: &mut Out) {
             out.bump("program_with_lint_options");
         }
         for k in 0..4 {
-            let (config, cfg_sx) = if k == 0 { (CheckerConfig::default(), list(vec![])) } else { random_config(&mut rng) };
+            let fixed = |pairs: &[(&str, LintVariation)]| -> (CheckerConfig<toml::value::Value>, Sx) {
+                let mut lints = HashMap::new();
+                let mut sx = Vec::new();
+                for (l, v) in pairs {
+                    lints.insert((*l).to_owned(), *v);
+                    sx.push(list(vec![st(*l), sev_sx(v.to_severity())]));
+                }
+                (CheckerConfig { lints, ..CheckerConfig::default() }, list(sx))
+            };
+            let (config, cfg_sx) = if k == 0 {
+                (CheckerConfig::default(), list(vec![]))
+            } else if is_corpus && k == 1 {
+                fixed(&[("invalid_lint_filter", LintVariation::Allow)])
+            } else if is_corpus && k == 2 {
+                fixed(&[("invalid_lint_filter", LintVariation::Allow), ("unused_variable", LintVariation::Deny), ("undefined_variable", LintVariation::Warn)])
+            } else {
+                random_config(&mut rng)
+            };
             let config = CheckerConfig { config: options.clone(), ..config };
             let checker: Checker<toml::value::Value> = Checker::new(config, std.clone()).unwrap();
             let unf = checker.verif_test_on_unfiltered(&ast);
